@@ -80,7 +80,7 @@ class V:
 def rat_lit(fr):
     fr = Fraction(fr)
     if fr < 0:
-        return '(-%s)' % rat_lit(-fr)[1:-1] if False else '(-(%s))' % rat_lit(-fr)
+        return '(-(%s))' % rat_lit(-fr)
     return '%d' % fr.numerator if fr.denominator == 1 else '(%d/%d)' % (fr.numerator, fr.denominator)
 
 
@@ -1016,13 +1016,12 @@ def generate_cost(root):
         _, mname, cname = it.key
         q = 'Gen.%s.%s' % (mname, cname)
         if (mname, cname) not in HAND_FORWARD:
+            fwd = [f for f in ctx.modules[mname].classes[cname].body
+                   if isinstance(f, ast.FunctionDef) and f.name == 'forward']
+            arity = len(fn_signature(fwd[0], skip_first=1)) if fwd else 0
+            getl = ' '.join('(l.getD %d 0)' % i for i in range(arity))
             arg_rows.append('  | "%s", "%s.forward" => some (%d, fun l => (%s.forward.ok (α := Rat) %s, %s.fwdL l))'
-                            % (mname, cname, len(fn_signature([f for f in ctx.modules[mname].classes[cname].body
-                                                                if isinstance(f, ast.FunctionDef) and f.name == 'forward'][0], 1))
-                               if not it.error or True else 0, q,
-                               ' '.join('(l.getD %d 0)' % i for i in range(len(fn_signature(
-                                   [f for f in ctx.modules[mname].classes[cname].body
-                                    if isinstance(f, ast.FunctionDef) and f.name == 'forward'][0], 1)))), q))
+                            % (mname, cname, arity, q, getl, q))
         bwd_rows.append('  | "%s", "%s" => some %s.bwdL' % (mname, cname, q))
     reg_rows = ['  { spec := "%s", layer := "%s", constr := "%s", fn := "%s",\n    val := Gen.%s.%s.val, ok := Gen.%s.%s.ok }'
                 % (sobj, layer, constr, tgt[1], tgt[0], tgt[1], tgt[0], tgt[1]) for (sobj, layer, constr, tgt) in regs]
@@ -1208,11 +1207,10 @@ def generate_reg(root):
     except (TranslationError, OSError) as ex:
         if isinstance(ex, OSError):
             ex = TranslationError(rels[1], '<module>', 0, str(ex))
-        have = {it.key for it in items}
-        if (ns, 'derived_strength') not in have:
-            items.append(stub(ns, 'derived_strength', P_DER, ex))
-            ex2 = ex
-        errors.append(ex) if ex not in errors else None
+        if (ns, 'derived_strength') not in {it.key for it in items}:
+            items.append(stub(ns, 'derived_strength', P_DER, ex))        # records the error
+        elif ex not in errors:
+            errors.append(ex)
         c = '-- NOT TRANSLATED: %s\ndef step.val %s : α := CostNum.ofRat 0\ndef step.ok %s : Bool := false\n' % (
             str(ex).replace('\n', ' '), P_STEP, P_STEP)
         c += 'def call.val (ms : List (α × α × α)) (epoch n_epochs : α) : α := CostNum.ofRat 0\n'
